@@ -55,6 +55,12 @@ def cases(tier, seed):
                     'reduce_iops': rng.random() < 0.3, 'cost': 2})
     for rel, cn in [('vds/small.vds', 'VdsConverter'), ('zgy/small-32bit.zgy', 'ZgyConverter'), ('zgy/small-float-samplerate.zgy', 'ZgyConverter')]:
         out.append({'id': 'writer:fx:' + rel, 'kind': 'fixture-writer', 'fixture': rel, 'converter': cn, 'rate': 4, 'cost': 2})
+    # generated ZGY sources (pyzgy's writer): float sample axis, four derived header arrays, then optional crop / re-block
+    for i in range(16 if tier == 'quick' else 120):
+        rate, bs = rng.choice(settings3) if i % 3 != 2 else (2, (4, 4, -1))
+        nI, nX = rng.choice([(8, 16), (16, 16), (9, 7), (5, 5), (2, 64), (3, 43), (10, 13), (70, 66)])
+        out.append({'id': 'writer:zgy:%d' % i, 'kind': 'zgy-writer', 'zgy': conv.zgy_desc(rng, (nI, nX, rng.choice([5, 17, 64, 100]))), 'rate': rate,
+                    'bs': list(bs), 'stage': [None, 'crop', 'reblock'][i % 3], 'cseed': rng.randrange(1 << 30), 'cost': 3})
     nchain = 60 if tier == 'quick' else 360
     for i in range(nchain):
         stages = [rng.choice(['crop', 'reblock', 'export']) for _ in range(rng.choice([1, 2, 2]))]
@@ -175,6 +181,54 @@ def run_fixture_writer(case, ctx):
     bad, sp = conform.check(out, {'shape': ref.shape, 'rate': case['rate'], 'data_image': oracles.image(ref, case['rate']),
                                   'version': pinned_version_tuple()}, tag=case['converter'] + ':')
     return {'violations': bad, 'counters': {'files_checked': 1}, 'strata': ['writer:' + case['converter']]}
+
+
+def run_zgy_writer(case, ctx):
+    from seismic_zfp.conversion import SgzConverter
+    from seismic_zfp.cropping import SgzCropper
+    rng = random.Random(case['cseed'])
+    sc = ctx['scratch']
+    src = conv.build_source(case['zgy'], sc)
+    D = src['data']
+    rate, bs = case['rate'], tuple(case['bs'])
+    out = sc.file('out.sgz')
+    conv.convert_zgy(src['path'], out, rate, bs)
+    truth = {'shape': D.shape, 'rate': rate, 'bs': conv.resolve_bs(rate, bs), 'ilines': src['ilines'], 'xlines': src['xlines'], 'samples': src['samples'],
+             'ntraces': src['ntraces'], 'version': pinned_version_tuple(), 'source_code': 10, 'data_image': oracles.image(D, rate),
+             'fields': conv.zgy_truth_arrays(src)}
+    bad, sp = conform.check(out, truth, tag='zgy:')
+    strata, n = ['writer:zgy-generated'], 1
+    st = case.get('stage')
+    if st and not bad and sp is not None:
+        nxt = sc.file('s1.sgz')
+        V, F = sp.decode(), spec_fields(sp)
+        nI, nX, nZ = sp.shape
+        t = None
+        if st == 'reblock' and sp.rate == 2 and tuple(sp.bs) == (4, 4, 1024):
+            with env.quiet():
+                with SgzConverter(out) as c:
+                    c.convert_to_adv_sgz(nxt)
+            t = {'shape': sp.shape, 'rate': 2, 'bs': (64, 64, 4), 'ilines': sp.ilines(), 'xlines': sp.xlines(), 'samples': sp.samples(),
+                 'ntraces': sp.ntr, 'data_image': V, 'fields': F, 'hash': sp.hash, 'version': sp.version, 'source_code': 10}
+        elif st == 'crop' and tuple(sp.bs[:2]) == (4, 4):
+            lo = rng.randrange(nI)
+            ir = (lo, rng.randrange(lo + 1, nI + 1))
+            lo = rng.randrange(nX)
+            xr = (lo, rng.randrange(lo + 1, nX + 1))
+            W = [(a // b * b, min(n_, -(-h // b) * b)) for (a, h), n_, b in ((ir, nI, 4), (xr, nX, 4))]
+            with env.quiet():
+                with SgzCropper(out) as c:
+                    c.write_cropped_file_by_indexes(nxt, ir, xr, None)
+            sl = tuple(slice(a, b) for a, b in W)
+            t = {'shape': (W[0][1] - W[0][0], W[1][1] - W[1][0], nZ), 'rate': sp.rate, 'bs': sp.bs, 'ilines': sp.ilines()[sl[0]], 'xlines': sp.xlines()[sl[1]],
+                 'samples': sp.samples(), 'ntraces': (W[0][1] - W[0][0]) * (W[1][1] - W[1][0]), 'data_image': V[sl],
+                 'fields': {k: a.reshape(nI, nX)[sl[0], sl[1]].reshape(-1) for k, a in F.items()}, 'version': sp.version}
+        if t is not None:
+            b, _ = conform.check(nxt, t, tag='zgy-%s:' % st)
+            bad += b
+            n += 1
+            strata.append('zgy-stage:' + st)
+    return {'violations': bad, 'counters': {'files_checked': n}, 'strata': strata}
 
 
 def run_chain(case, ctx):
@@ -455,7 +509,7 @@ def run_gate_reader(case, ctx):
 
 def run_case(case, ctx):
     k = case['kind']
-    res = {'writer': run_writer, 'fixture-writer': run_fixture_writer, 'chain': run_chain, 'version-shard': run_version_shard,
+    res = {'writer': run_writer, 'zgy-writer': run_zgy_writer, 'fixture-writer': run_fixture_writer, 'chain': run_chain, 'version-shard': run_version_shard,
            'version-strings': run_version_strings, 'version-gates': run_version_gates, 'gate-writer': run_gate_writer,
            'gate-reader': run_gate_reader}[k](case, ctx)
     res.setdefault('key', case['id'])
@@ -468,7 +522,7 @@ def sample_view(case, res):
 
 def finalize(tier, cases, results, counters, strata):
     reasons = []
-    need = ['writer:3d', 'writer:irregular', 'writer:2d', 'writer:numpy', 'writer:VdsConverter', 'writer:ZgyConverter', 'stage:crop',
+    need = ['writer:3d', 'writer:irregular', 'writer:2d', 'writer:numpy', 'writer:VdsConverter', 'writer:ZgyConverter', 'writer:zgy-generated', 'zgy-stage:crop', 'zgy-stage:reblock', 'stage:crop',
             'stage:reblock', 'stage:export', 'detection:heuristic', 'detection:thorough', 'detection:exhaustive', 'detection:strip',
             'version-space', 'version-strings', 'version-gates', 'gate-writer', 'gate-reader', 'footer4n%512=0', 'narr>=3', 'legacy-source:unpadded', 'legacy-source:padded']
     for s in need:
